@@ -980,6 +980,14 @@ func (r *Raft) verifyLeader(v *verifyFuture) {
 
 	// Trigger immediate heartbeats
 	for _, repl := range r.leaderState.replState {
+		// Only voters can confirm leadership: quorumSize counts voters, so an
+		// acknowledgement from a non-voter must not stand in for one of them.
+		repl.peerLock.RLock()
+		peerID := repl.peer.ID
+		repl.peerLock.RUnlock()
+		if !hasVote(r.configurations.latest, peerID) {
+			continue
+		}
 		repl.notifyLock.Lock()
 		repl.notify[v] = struct{}{}
 		repl.notifyLock.Unlock()
